@@ -1004,6 +1004,17 @@ void recv_loop_cleanup(void *p)
 	lrtr_free(args->router_key_pdus);
 }
 
+/*
+ * @brief Called if the records applied from a failed response could not be taken back:
+ * drops everything learned from this socket and forces a Reset Query.
+ */
+static void rtr_sync_purge_after_failed_undo(struct rtr_socket *rtr_socket)
+{
+	pfx_table_src_remove(rtr_socket->pfx_table, rtr_socket);
+	spki_table_src_remove(rtr_socket->spki_table, rtr_socket);
+	rtr_socket->request_session_id = true;
+}
+
 /* WARNING: This Function has cancelable sections*/
 static int rtr_sync_receive_and_store_pdus(struct rtr_socket *rtr_socket)
 {
@@ -1183,14 +1194,14 @@ static int rtr_sync_receive_and_store_pdus(struct rtr_socket *rtr_socket)
 					// undo all record updates, except the last which produced the error
 					RTR_DBG("Error during data synchronisation, recovering Serial Nr. %u state",
 						rtr_socket->serial_number);
-					for (unsigned int j = 0; j < i && retval == PFX_SUCCESS; j++)
+					// undo in reverse order, a record may occur in more than one PDU
+					for (unsigned int j = i; j > 0 && retval == PFX_SUCCESS; j--)
 						retval = rtr_undo_update_pfx_table(rtr_socket, pfx_update_table,
-										   &(ipv4_pdus[j]));
-					if (retval == RTR_ERROR) {
+										   &(ipv4_pdus[j - 1]));
+					if (retval != PFX_SUCCESS) {
 						RTR_DBG1(
 							"Couldn't undo all update operations from failed data synchronisation: Purging all records");
-						pfx_table_src_remove(rtr_socket->pfx_table, rtr_socket);
-						rtr_socket->request_session_id = true;
+						rtr_sync_purge_after_failed_undo(rtr_socket);
 					}
 					rtr_change_socket_state(rtr_socket, RTR_ERROR_FATAL);
 					retval = RTR_ERROR;
@@ -1204,17 +1215,16 @@ static int rtr_sync_receive_and_store_pdus(struct rtr_socket *rtr_socket)
 					// undo all record updates if error occurred
 					RTR_DBG("Error during data synchronisation, recovering Serial Nr. %u state",
 						rtr_socket->serial_number);
-					for (unsigned int j = 0; j < ipv4_pdus_nindex && retval == PFX_SUCCESS; j++)
+					for (unsigned int j = i; j > 0 && retval == PFX_SUCCESS; j--)
 						retval = rtr_undo_update_pfx_table(rtr_socket, pfx_update_table,
-										   &(ipv4_pdus[j]));
-					for (unsigned int j = 0; j < i && retval == PFX_SUCCESS; j++)
+										   &(ipv6_pdus[j - 1]));
+					for (unsigned int j = ipv4_pdus_nindex; j > 0 && retval == PFX_SUCCESS; j--)
 						retval = rtr_undo_update_pfx_table(rtr_socket, pfx_update_table,
-										   &(ipv6_pdus[j]));
-					if (retval == PFX_ERROR) {
+										   &(ipv4_pdus[j - 1]));
+					if (retval != PFX_SUCCESS) {
 						RTR_DBG1(
 							"Couldn't undo all update operations from failed data synchronisation: Purging all records");
-						pfx_table_src_remove(rtr_socket->pfx_table, rtr_socket);
-						rtr_socket->request_session_id = true;
+						rtr_sync_purge_after_failed_undo(rtr_socket);
 					}
 					rtr_change_socket_state(rtr_socket, RTR_ERROR_FATAL);
 					retval = RTR_ERROR;
@@ -1229,23 +1239,19 @@ static int rtr_sync_receive_and_store_pdus(struct rtr_socket *rtr_socket)
 				    SPKI_ERROR) {
 					RTR_DBG("Error during router key data synchronisation, recovering Serial Nr. %u state",
 						rtr_socket->serial_number);
-					for (unsigned int j = 0; j < ipv4_pdus_nindex && retval == PFX_SUCCESS; j++)
-						retval = rtr_undo_update_pfx_table(rtr_socket, pfx_update_table,
-										   &(ipv4_pdus[j]));
-					for (unsigned int j = 0; j < ipv6_pdus_nindex && retval == PFX_SUCCESS; j++)
-						retval = rtr_undo_update_pfx_table(rtr_socket, pfx_update_table,
-										   &(ipv6_pdus[j]));
-					for (unsigned int j = 0;
-					// cppcheck-suppress duplicateExpression
-					     j < i && (retval == PFX_SUCCESS || retval == SPKI_SUCCESS); j++)
+					for (unsigned int j = i; j > 0 && retval == SPKI_SUCCESS; j--)
 						retval = rtr_undo_update_spki_table(rtr_socket, spki_update_table,
-										    &(router_key_pdus[j]));
-					// cppcheck-suppress duplicateExpression
-					if (retval == RTR_ERROR || retval == SPKI_ERROR) {
+										    &(router_key_pdus[j - 1]));
+					for (unsigned int j = ipv6_pdus_nindex; j > 0 && retval == PFX_SUCCESS; j--)
+						retval = rtr_undo_update_pfx_table(rtr_socket, pfx_update_table,
+										   &(ipv6_pdus[j - 1]));
+					for (unsigned int j = ipv4_pdus_nindex; j > 0 && retval == PFX_SUCCESS; j--)
+						retval = rtr_undo_update_pfx_table(rtr_socket, pfx_update_table,
+										   &(ipv4_pdus[j - 1]));
+					if (retval != PFX_SUCCESS) {
 						RTR_DBG1(
-							"Couldn't undo all update operations from failed data synchronisation: Purging all key entries");
-						spki_table_src_remove(spki_update_table, rtr_socket);
-						rtr_socket->request_session_id = true;
+							"Couldn't undo all update operations from failed data synchronisation: Purging all records");
+						rtr_sync_purge_after_failed_undo(rtr_socket);
 					}
 					rtr_change_socket_state(rtr_socket, RTR_ERROR_FATAL);
 					retval = RTR_ERROR;
